@@ -711,6 +711,14 @@ def rf_oracle(truth, body_ok, got):
     if "raise" in got:
         return f"prepare_resource_function raised: {got['raise']}"
     if got["watched"] is None:
+        # a bare outcome carries no subscriptions.  That is acceptable only when the spec itself is broken
+        # (`body_ok` false: it stays PermFail until edited); a function whose own spec is fine names its overlay
+        # functions whether they are cached, missing or unhealthy — exactly then the watch is what gets it
+        # prepared again
+        named = [t["name"] for t in truth if t["well_formed"]]
+        if body_ok and named:
+            return (f"prepare_resource_function returned a bare outcome, so nothing is watched, although the spec names "
+                    f"ValueFunction {named} in overlayRef entries")
         return None
     w = {tuple(x) for x in got["watched"]}
     for t in truth:
@@ -817,10 +825,13 @@ def impl_ft(spec):
     return {"watched": sorted([x.resource_type.__name__, str(x.name)] for x in (got[1] or ()))}
 
 
-def ft_oracle(fn, got):
+def ft_oracle(fn, got, cases_ok=None):
     if "raise" in got:
         return f"prepare_function_test raised: {got['raise']}"
     if got["watched"] is None:
+        if cases_ok:    # the test's own spec is fine: whether its function is cached or not, it is named and watched
+            return (f"prepare_function_test returned a bare outcome, so nothing is watched, although the spec names "
+                    f"{fn[0]}:{fn[1]} as the function under test")
         return None
     if list(fn) not in got["watched"]:
         return f"the function under test {fn[0]}:{fn[1]} is not among the watched resources"
@@ -851,9 +862,9 @@ def run_functions(ck: Check, drv: LeanDriver, n: int, r):
         ck.count("ft:" + ("raise" if "raise" in got else "permfail" if got["watched"] is None else "prepared"))
         ck.count(f"ft-fn:{fn[1]}")
         ck.nontriv(hash(json.dumps(spec, sort_keys=True)))
-        bad = ft_oracle(fn, got)
+        bad = ft_oracle(fn, got, cases_ok)
         if bad:
-            ck.violate({"kind": "ft", "spec": spec, "fn": list(fn)}, bad)
+            ck.violate({"kind": "ft", "spec": spec, "fn": list(fn), "cases_ok": cases_ok}, bad)
         if "raise" not in got:
             # test cases are merged only when there are any; with none, only a constant name resolves
             reqs.append({"op": "ft", "fn": {"kind": fn[0], "name": fn[1]}, "casesOk": cases_ok,
@@ -885,7 +896,7 @@ def replay_case(case) -> str | None:
     if k == "ft":
         setup_cache()
         setup_ft_cache()
-        return ft_oracle(tuple(case["fn"]), impl_ft(case["spec"]))
+        return ft_oracle(tuple(case["fn"]), impl_ft(case["spec"]), case.get("cases_ok"))
     return f"unknown case kind {k}"
 
 
